@@ -175,6 +175,10 @@ def render_stmt(prog, here_mod, k, st, in_class=False):
             lines.append(")")
             return lines
         return [f"r{k} = dds.keep({', '.join(head + args)})"]
+    if kind == "comp":
+        # a comprehension whose loop variable carries the name of a module variable (which is NOT read)
+        n = prog["vars"][st[1]]["name"]
+        return [f"r{k} = [{n} for {n} in (1, 2)]"]
     raise ValueError(st)
 
 
@@ -185,7 +189,8 @@ def render_func(prog, fi):
     if is_data(f):
         lines.append(f"@dds.data_function({f['data']!r})")
     lines.append(f"def {f['name']}({params}):")
-    lines.append(f"    vlog.rec({f['name']!r})")
+    # "tc": a comment at the end of an existing line (the text changes; line numbers and byte code do not)
+    lines.append(f"    vlog.rec({f['name']!r})" + (f"  # tc {f['tc']}" if f.get("tc") else ""))
     for i in range(f.get("pad", 0)):
         lines.append(f"    # pad {i}")
     for k, st in enumerate(f["body"]):
@@ -201,6 +206,9 @@ def render_func(prog, fi):
         lines.append(f"    return repr({tup})")
     elif f.get("ret") == "bytes":
         lines.append(f"    return repr({tup}).encode('utf-8')")
+    elif f.get("ret") == "none":
+        lines.append(f"    _unused = {tup}")
+        lines.append("    return None")
     else:
         lines.append(f"    return {tup}")
     return lines
@@ -443,6 +451,8 @@ class Interp(object):
                 self.executed.append(c["name"] + ".m")
                 inner = self.run_body(c["body"], {})
                 locs.append((c["name"] + ".m", c.get("ver", 0), dec(st[2])) + tuple(inner))
+            elif kind == "comp":
+                locs.append([1, 2])
             else:
                 raise ValueError(st)
         return locs
@@ -470,6 +480,8 @@ class Interp(object):
             res = repr(res)
         elif f.get("ret") == "bytes":
             res = repr(res).encode("utf-8")
+        elif f.get("ret") == "none":
+            res = None
         if is_data(f):
             self.kept[f["data"]] = res
             self.kept_order.append(f["data"])
@@ -612,6 +624,8 @@ def apply_edit(prog, ed):
         p["mods"][ed[1]] = ed[2]
     elif k == "setpath":       # E10
         p["funcs"][ed[1]]["data"] = ed[2]
+    elif k == "tcomment":      # a comment is added / changed at the end of a line of the function
+        p["funcs"][ed[1]]["tc"] = p["funcs"][ed[1]].get("tc", 0) + 1
     elif k == "indent":        # one statement moves into / out of a loop: only the indentation of its line changes
         p["funcs"][ed[1]]["ind"] = 1 - p["funcs"][ed[1]]["ind"]
     elif k == "rename_fun":    # the function gets another name (definition and every reference): the old name disappears
@@ -626,7 +640,7 @@ def edit_target(ed):
     k = ed[0]
     if k == "setvar":
         return ("v", ed[1])
-    if k in ("bump", "pad", "setlit", "setpath", "rename_fun", "indent"):
+    if k in ("bump", "pad", "setlit", "setpath", "rename_fun", "indent", "tcomment"):
         return ("f", ed[1])
     if k == "bumpcls":
         return ("c", ed[1])
@@ -634,7 +648,7 @@ def edit_target(ed):
 
 
 def value_preserving(ed):
-    return ed[0] in ("pad", "unrelated", "reorder", "ext_pad", "rename_mod")
+    return ed[0] in ("pad", "tcomment", "unrelated", "reorder", "ext_pad", "rename_mod")
 
 
 def pkey(prog):
